@@ -41,7 +41,15 @@ type Action struct {
 	URL string `json:"url,omitempty"`
 	// HoldOutput (start): the call's Shell.Output parks until a release action
 	HoldOutput bool `json:"hold_output,omitempty"`
+	// Host (start): the host name in C2: "" a name of the call's own
+	// (c<call>.srv<server>.test), "server" the server's own name
+	// (srv<server>.test, default port), which every such call to that server
+	// shares, as the calls of a process to one curlrevshell do
+	Host string `json:"host,omitempty"`
 }
+
+// hostServer is Action.Host for the server's own name.
+const hostServer = "server"
 
 func (a Action) String() string {
 	b, _ := json.Marshal(a)
@@ -140,6 +148,14 @@ func genCase(rng *simkit.RNG) (Config, []Action) {
 	var held []int // started with hold_output and not released yet
 	var targets []int
 	holds := rng.Chance(2, 3) // whether this run parks calls in Output at all
+	// how many of the run's calls (in quarters) name their server by its own
+	// host name, so that calls share a host name and port
+	shareW := []int{0, 1, 3, 4}[rng.Intn(4)]
+	// earlier starts whose own configuration lets them through (a pin the
+	// target presents, or no pin and a chain that validates): a later call to
+	// the same host with a pin the target does not present is the sequence
+	// "trusted once, so trusted again?"
+	var good []Action
 	unhold := func(k int) {
 		for i, h := range held {
 			if h == k {
@@ -203,6 +219,24 @@ func genCase(rng *simkit.RNG) (Config, []Action) {
 				case "unpadded", "short", "hex":
 					a.V = rng.Intn(2)
 				}
+			}
+			if shareW > 0 && rng.Chance(shareW, 4) {
+				a.Host = hostServer
+			}
+			if len(good) > 0 && rng.Chance(1, 4) {
+				// the same host again, now with the pin of a key another server
+				// presents (mostly) or a near miss of the target's own
+				g := good[rng.Intn(len(good))]
+				a.Server, a.Host = g.Server, g.Host
+				targets[len(targets)-1] = a.Server
+				a.FP, a.V = []string{"plain", "prefix"}[rng.Intn(2)], 0
+				a.Of = rng.Intn(nsrv)
+				if a.Of == a.Server || rng.Chance(1, 5) {
+					a.Of, a.FP, a.V = a.Server, "flip", rng.Intn(512)
+				}
+				a.Pos = rng.Intn(chainLen(a.Of))
+			} else if a.Of == a.Server && (a.FP == "plain" || a.FP == "prefix" || (a.FP == "empty" && cfg.Servers[a.Server].Kind == "valid")) {
+				good = append(good, a)
 			}
 			a.URL = []string{"", "", "", "", "", "", "upper", "upper", "mixed", "redir", "redir"}[rng.Intn(11)]
 			if holds && rng.Chance(1, 2) {
